@@ -95,6 +95,7 @@ class SeqLeg(object):
                 "gtf": gtf, "strategy": strategy, "force": fmf, "records": recs, "split": split,
                 "update_form": draw(st.sampled_from(["path", "features"])),
                 "file_db": draw(st.booleans()),
+                "verbose": draw(st.sampled_from([False, False, True, "debug"])),
             }
 
         return case()
@@ -161,6 +162,8 @@ class SeqLeg(object):
         first = pre + recs[:split]
         rest = recs[split:]
         kw = dict(merge_strategy=strategy, id_spec="ID")
+        if case.get("verbose"):
+            kw["verbose"] = case["verbose"]  # reporting only: must not change the outcome
         if force:
             kw["force_merge_fields"] = force
         if gtf:
